@@ -253,3 +253,90 @@ func VH_block_row_decode_robust() {
 	}
 	vReach("end")
 }
+
+// C15(4'): databases written by older versions stay readable: a LEGACY spend-journal record carries the containing
+// transaction's version as a variable-length quantity in the slot the current writer fills with a single 0x00:
+// header code VLQ || version VLQ (arbitrary 32-bit value, 1..5 bytes) || compressed txout decodes to the same
+// height / coinbase flag / amount / script and consumes exactly the record.
+//verif:opts reach=end
+func VH_stxo_legacy_reserved_field() {
+	h := vNondetI32("height")
+	vAssume(h > 0)
+	cb := vNondetBool("coinbase")
+	code := uint64(h) << 1
+	if cb {
+		code |= 1
+	}
+	ver := uint64(vNondetU32("legacyTxVersion"))
+	amt := vAmounts[vNondetLen("amt", len(vAmounts)-1)]
+	script := []byte{0x51, vNondetU8("scriptByte")}
+	buf := make([]byte, serializeSizeVLQ(code)+serializeSizeVLQ(ver)+compressedTxOutSize(uint64(amt), script))
+	off := putVLQ(buf, code)
+	off += putVLQ(buf[off:], ver)
+	off += putCompressedTxOut(buf[off:], uint64(amt), script)
+	vAssert(off == len(buf), "harness wrote the whole record")
+	var d SpentTxOut
+	r, err := decodeSpentTxOut(buf, &d)
+	vAssert(err == nil && r == len(buf), "a legacy record decodes and is consumed exactly")
+	vAssert(d.Height == h && d.IsCoinBase == cb && d.Amount == amt, "height, coinbase flag and amount are read back")
+	vAssert(vSameBytes(d.PkScript, script), "script is read back")
+	vReach("end")
+}
+
+// C15(2'): the legacy (version 0) per-transaction utxo format read by the migration: version VLQ || height VLQ ||
+// header code (bit 0 coinbase, bit 1 / 2 outputs 0 / 1 unspent, remaining bits number of bitmap bytes, plus one when
+// neither is set) || bitmap, bit j of byte i = output 2 + 8i + j unspent || one compressed txout per unspent output in
+// index order.  For every header / two bitmap bytes with at most 3 unspent outputs in total the decoder returns
+// exactly the outputs the bitmap names - including bit 7 of each byte - each with the amount written for it.
+//verif:opts reach=end
+func VH_utxo_v0_bitmap() {
+	cb := vNondetBool("coinbase")
+	o0, o1 := vNondetBool("out0"), vNondetBool("out1")
+	bm := []byte{vNondetU8("bitmap0"), vNondetU8("bitmap1")}
+	var idx []uint32
+	if o0 {
+		idx = append(idx, 0)
+	}
+	if o1 {
+		idx = append(idx, 1)
+	}
+	for i := uint32(0); i < 2; i++ {
+		for j := uint32(0); j < 8; j++ {
+			if bm[i]>>j&1 == 1 {
+				idx = append(idx, 2+8*i+j)
+			}
+		}
+	}
+	vAssume(len(idx) >= 1 && len(idx) <= 3)
+	// the format stores (number of bitmap bytes) in the header, minus one when neither of the first two is unspent
+	nb := uint64(2)
+	if !o0 && !o1 {
+		nb = 1
+	}
+	code := nb << 3
+	if cb {
+		code |= 1
+	}
+	if o0 {
+		code |= 2
+	}
+	if o1 {
+		code |= 4
+	}
+	ser := make([]byte, 0, 64)
+	tmp := make([]byte, 16)
+	ser = append(ser, tmp[:putVLQ(tmp, 1)]...)   // version
+	ser = append(ser, tmp[:putVLQ(tmp, 300)]...) // height
+	ser = append(ser, tmp[:putVLQ(tmp, code)]...)
+	ser = append(ser, bm...)
+	for k := range idx {
+		ser = append(ser, tmp[:putCompressedTxOut(tmp, uint64(1000+k), []byte{0x51, byte(k)})]...)
+	}
+	got, err := deserializeUtxoEntryV0(ser)
+	vAssert(err == nil && len(got) == len(idx), "exactly the outputs named by header and bitmap are returned")
+	for k, ix := range idx {
+		e := got[ix]
+		vAssert(e != nil && e.Amount() == int64(1000+k) && e.BlockHeight() == 300 && e.IsCoinBase() == cb, "each unspent output carries its own txout, the height and the coinbase flag")
+	}
+	vReach("end")
+}
